@@ -41,13 +41,41 @@ def CbOK (w w' : Term.W) : Prop :=
     ∧ cbCount l ≤ (if w.n.committed.isSome then 0 else 1)
     ∧ (w.n.committed.isSome = true → w'.n.committed.isSome = true)
     ∧ (cbCount l = 1 → w'.n.committed.isSome = true)
+    ∧ (w'.n.committed.isSome = true → w.n.committed.isSome = true ∨ cbCount l = 1)
 
-theorem CbOK.refl (w : Term.W) : CbOK w w := ⟨[], by simp, by unfold cbCount; split <;> simp, fun h => h, by unfold cbCount; simp⟩
+theorem CbOK.refl (w : Term.W) : CbOK w w := ⟨[], by simp, by unfold cbCount; split <;> simp, fun h => h, by unfold cbCount; simp, fun h => Or.inl h⟩
 
 theorem CbOK.trans {a b c : Term.W} (h1 : CbOK a b) (h2 : CbOK b c) : CbOK a c := by
-  obtain ⟨l1, e1, c1, m1, f1⟩ := h1
-  obtain ⟨l2, e2, c2, m2, f2⟩ := h2
-  refine ⟨l1 ++ l2, by rw [e2, e1, List.append_assoc], ?_, fun h => m2 (m1 h), ?_⟩
+  obtain ⟨l1, e1, c1, m1, f1, g1⟩ := h1
+  obtain ⟨l2, e2, c2, m2, f2, g2⟩ := h2
+  have htotal : cbCount (l1 ++ l2) ≤ (if a.n.committed.isSome then 0 else 1) := by
+    rw [cbCount_append]
+    by_cases ha : a.n.committed.isSome = true
+    · have hb := m1 ha
+      simp only [ha, hb, if_true] at c1 c2 ⊢
+      omega
+    · simp only [ha] at c1 ⊢
+      by_cases h11 : cbCount l1 = 1
+      · have hb := f1 h11
+        simp only [hb, if_true] at c2
+        simp only [Bool.false_eq_true, if_false] at c1 ⊢
+        omega
+      · simp only [Bool.false_eq_true, if_false] at c1 ⊢
+        have : cbCount l1 = 0 := by omega
+        split at c2 <;> omega
+  refine ⟨l1 ++ l2, by rw [e2, e1, List.append_assoc], ?_, fun h => m2 (m1 h), ?_, ?_⟩
+  rotate_left 2
+  · intro hc
+    by_cases ha : a.n.committed.isSome = true
+    · exact Or.inl ha
+    · right
+      simp only [ha, Bool.false_eq_true, if_false] at htotal
+      rw [cbCount_append] at htotal ⊢
+      rcases g2 hc with hb | h2'
+      · rcases g1 hb with ha' | h1'
+        · exact absurd ha' ha
+        · omega
+      · omega
   · rw [cbCount_append]
     by_cases ha : a.n.committed.isSome = true
     · have hb := m1 ha
@@ -78,7 +106,7 @@ theorem CbOK.trans {a b c : Term.W} (h1 : CbOK a b) (h2 : CbOK b c) : CbOK a c :
 theorem CbOK.quiet {w w' : Term.W} (ha : Appends NoCb w w') (hc : w'.n.committed = w.n.committed) : CbOK w w' := by
   obtain ⟨l, el, pl⟩ := ha
   have h0 := cbCount_noCb l pl
-  refine ⟨l, el, by rw [h0]; exact Nat.zero_le _, by intro h; rw [hc]; exact h, by intro h; rw [h0] at h; cases h⟩
+  refine ⟨l, el, (by rw [h0]; exact Nat.zero_le _), (by intro h; rw [hc]; exact h), (by intro h; rw [h0] at h; cases h), (by intro h; rw [hc] at h; exact Or.inl h)⟩
 
 /-- effects without callbacks, then the callback, with `committed` filled -/
 theorem CbOK.emitCb {w w1 : Term.W} (ha : Appends NoCb w w1) (hnone : w.n.committed.isSome = false)
@@ -86,7 +114,12 @@ theorem CbOK.emitCb {w w1 : Term.W} (ha : Appends NoCb w w1) (hnone : w.n.commit
     CbOK w (({ w1 with n := n' } : Term.W).emit (.commit b cs)) := by
   obtain ⟨l0, e0, p0⟩ := ha
   have z0 := cbCount_noCb l0 p0
-  refine ⟨l0 ++ [.commit b cs], ?_, ?_, (by intro hh; rw [hnone] at hh; cases hh), fun _ => hn'⟩
+  refine ⟨l0 ++ [.commit b cs], ?_, ?_, (by intro hh; rw [hnone] at hh; cases hh), fun _ => hn', ?_⟩
+  rotate_left 2
+  · intro _
+    right
+    rw [cbCount_append, z0]
+    rfl
   · show w1.outs ++ [Out.commit b cs] = w.outs ++ (l0 ++ [Out.commit b cs])
     rw [e0, List.append_assoc]
   · rw [cbCount_append, z0, hnone]
@@ -280,7 +313,7 @@ theorem step_cb (n : Node) (e : Event) (spi : List Spi) (hns : ∀ c, e ≠ .sta
   have key : ∀ (w' : Term.W), CbOK { n := n, spi := spi } w' →
       cbCount w'.outs ≤ (if n.committed.isSome then 0 else 1) ∧ (n.committed.isSome = true → w'.n.committed.isSome = true)
       ∧ (cbCount w'.outs = 1 → w'.n.committed.isSome = true) := by
-    intro w' ⟨l, el, c, m, f⟩
+    intro w' ⟨l, el, c, m, f, _⟩
     have : w'.outs = l := by simpa using el
     rw [this]; exact ⟨c, m, f⟩
   cases e with
@@ -294,6 +327,26 @@ theorem step_cb (n : Node) (e : Event) (spi : List Spi) (hns : ∀ c, e ≠ .sta
     | commit m => exact key _ (handleCommit_cb _ m)
     | viewChange m => exact key _ (handleViewChange_cb _ m)
     | newView m => exact key _ (handleNewView_cb _ m)
+
+/-- the latch is only ever set together with the callback -/
+theorem step_latch (n : Node) (e : Event) (spi : List Spi) (hns : ∀ c, e ≠ .start c)
+    (hc : (step n e spi).1.committed.isSome = true) : n.committed.isSome = true ∨ cbCount (step n e spi).2 = 1 := by
+  have key : ∀ (w' : Term.W), CbOK { n := n, spi := spi } w' → w'.n.committed.isSome = true →
+      n.committed.isSome = true ∨ cbCount w'.outs = 1 := by
+    intro w' ⟨l, el, _, _, _, g⟩ hc'
+    have : w'.outs = l := by simpa using el
+    rw [this]; exact g hc'
+  cases e with
+  | start c => exact absurd rfl (hns c)
+  | election h v => exact key _ (election_cb _ h v) hc
+  | cancelOlder h v => exact key _ (CbOK.quiet (Appends.refl _ _) rfl) hc
+  | deliver m =>
+    cases m with
+    | preprepare m => exact key _ (handlePrePrepare_cb _ m) hc
+    | prepare m => exact key _ (handlePrepare_cb _ m) hc
+    | commit m => exact key _ (handleCommit_cb _ m) hc
+    | viewChange m => exact key _ (handleViewChange_cb _ m) hc
+    | newView m => exact key _ (handleNewView_cb _ m) hc
 
 /-- **A term invokes the commit callback at most once**, over every sequence of events after its
 start, whatever is delivered and whatever the consumer answers. -/
